@@ -71,10 +71,14 @@ func (c20) Budget(tier string) (int, int, int) {
 
 var c20Features = []string{"64bit", "flex_bg", "dir_index", "huge_file", "sparse_super2", "has_journal"}
 
-func c20Name(r *core.Rng, i int, long bool) string {
+func c20Name(r *core.Rng, i int, kind string) string {
 	n := fmt.Sprintf("e%05d", i)
-	if long {
+	switch kind {
+	case "long":
 		n += "-" + strings.Repeat(string(rune('a'+i%26)), int(r.Range(1, 48)))
+	case "xlong":
+		// about 160 bytes per directory record: 9000 of them fill some 350 leaf blocks of 4 KiB
+		n += "-" + strings.Repeat(string(rune('a'+i%26)), int(r.Range(110, 190)))
 	}
 	return n
 }
@@ -166,21 +170,25 @@ func (c20) Gen(r *core.Rng, tier string, idx int) *core.Trace {
 	if tier == "quick" && nbig > 3500 {
 		nbig = 3500
 	}
-	if t.Cfg["bs"] == 4096 && ((tier == "thorough" && r.Chance(8)) || (tier == "quick" && r.Chance(3))) {
+	if t.Cfg["bs"] == 4096 && tier == "thorough" && r.Chance(8) {
 		// more than 255 leaf blocks below the root of the hash tree of a 4 KiB-block directory
-		nbig = 14000
+		nbig = 9000
 	}
 	if nbig > 0 {
 		o := core.Op{K: "bigdir", P: where("big"), D: nbig, S: core.PickOf(r, "short", "long", "long")}
-		if nbig > 10000 {
-			o.S = "long"
+		if nbig == 9000 {
+			// (an expensive tree: spend it on an option set the library opens)
+			o.S = "xlong"
 			t.Cfg["reindex"] = 1
 			t.Cfg["f_dir_index"] = 1
+			t.Cfg["csum"] = 1
+			t.CfgS["style"] = "ext4"
+			delete(t.CfgS, "exotic")
 		}
 		meta(&o)
 		o.A |= 0o700
 		add(o)
-		total += nbig * 1024
+		total += nbig * t.Cfg["bs"]
 	}
 	for i := 0; i < r.Intn(4); i++ {
 		ll := core.PickOf[int64](r, 1, 7, 59, 60, 61, 200, 1000, t.I("bs")-1, 4095)
@@ -465,10 +473,14 @@ func (p c20) Exec(t *core.Trace) *core.Result {
 			must(os.MkdirAll(hp, 0o755))
 			nr := core.NewRng(core.HashStr(o.P) ^ tag)
 			for i := 0; i < int(o.D); i++ {
-				name := c20Name(nr, i, o.S == "long")
+				name := c20Name(nr, i, o.S)
 				cp := o.P + "/" + name
 				cn := &c20Node{kind: 'f', tag: core.HashStr(cp) ^ tag}
-				if i%7 == 0 {
+				dirEvery := 7
+				if o.D >= 5000 {
+					dirEvery = 97 // (every subdirectory costs a full parse of its large parent when it is listed)
+				}
+				if i%dirEvery == 0 {
 					cn.kind = 'd'
 					must(os.Mkdir(filepath.Join(hp, name), 0o755))
 				} else {
@@ -1336,6 +1348,10 @@ func c20SelfCheck(img string, nodes map[string]*c20Node) error {
 	i := 0
 	for pth, n := range nodes {
 		if n.kind != 'f' || n.size > 64<<20 {
+			continue
+		}
+		// (of the files of a large directory a sample is enough here)
+		if par := nodes[path.Dir(pth)]; par != nil && par.bigdir && core.HashStr(pth)%16 != 0 {
 			continue
 		}
 		i++
